@@ -14,7 +14,7 @@ for name in "$@"; do
   cargo test --offline --test seed_demo >$d/confirm_demo_with.log 2>&1; r_with=$?
   cargo test --offline --lib >$d/confirm_lib.log 2>&1; r_lib=$?
   cargo test --offline --bins >$d/confirm_bins.log 2>&1; r_bins=$?
-  cargo test --offline --test integration_bin -- --skip bin_remote_invalidport --skip bin_remote_ex002 >$d/confirm_integ.log 2>&1; r_int=$?
+  timeout 900 cargo test --offline --test integration_bin -- --skip bin_remote_invalidport --skip bin_remote_ex002 >$d/confirm_integ.log 2>&1; r_int=$?
   git checkout -q -- . ; rm -f tests/seed_demo.rs
   for f in $d/confirm_*.log; do tail -n 12 $f > $f.tail; mv $f.tail $f; done
   echo "{\"demo_without_patch_rc\": $r_without, \"demo_with_patch_rc\": $r_with, \"lib_tests_with_patch_rc\": $r_lib, \"bins_tests_with_patch_rc\": $r_bins, \"integration_with_patch_rc\": $r_int}" > $d/confirm.json
